@@ -63,6 +63,12 @@ Definition norm_result (C : fconst) (exp man : Z) : Z * Z :=
   let r := round_even8 man in
   if r =? 2 ^ mbits C then (exp + 1, 2 ^ (mbits C - 1)) else (exp, r).
 
+Lemma loop3_exit f C buf neg exp man : c_den_mask C - 1 <= man ->
+  mbf_normalise_loop_3 (S f) C buf neg exp man = Ok (exp, man).
+Proof.
+  intros H. cbn [mbf_normalise_loop_3]. destruct (Z.ltb_spec man (c_den_mask C - 1)); [lia|reflexivity].
+Qed.
+
 Lemma normalise_norm_spec C buf exp man (neg : bool) : fmt_ok C -> zlen buf = c_size C -> 0 < exp ->
   c_den_mask C <= man < c_den_upper C ->
   mbf_normalise C buf exp man neg =
@@ -80,9 +86,7 @@ Proof.
   rewrite H256P, H512P in Hman.
   unfold mbf_normalise.
   destruct (Z.eqb_spec man 0); [lia|]. destruct (Z.leb_spec exp 0); [lia|]. cbn [orb].
-  change 1000%nat with (S 999). cbn [mbf_normalise_loop_3].
-  rewrite (ok_den_mask C HC), H256P.
-  destruct (Z.ltb_spec man (256 * P - 1)); [lia|]. cbn [bind]. cbv beta iota.
+  rewrite (loop3_exit 999) by (rewrite (ok_den_mask C HC), H256P; lia). cbn [bind]. cbv beta iota.
   rewrite land255, land256, (ok_carrymask C HC), (ok_den_upper C HC).
   rewrite land_carrymask by (rewrite ?H512P; lia). rewrite H512P.
   unfold norm_result, round_even8. rewrite H2P. fold P.
